@@ -151,6 +151,7 @@ class RunResult:
     digest: str = ""
     foreign: list = field(default_factory=list)  # foreign exceptions (not ours to judge)
     harness_error: str | None = None
+    notes: list = field(default_factory=list)  # free-form strings for the evidence file
 
     def count(self, key: str, n: int = 1) -> None:
         self.stats[key] = self.stats.get(key, 0) + n
@@ -163,4 +164,5 @@ class RunResult:
             "digest": self.digest,
             "foreign": self.foreign,
             "harness_error": self.harness_error,
+            "notes": self.notes[:20],
         }
